@@ -1,4 +1,5 @@
 """C17 — no resource leaks: a call gives back everything except what it returns"""
+from hypothesis import strategies as st
 from props.hist import hist_case, hist_classes
 
 ID = "C17"
@@ -7,7 +8,7 @@ RULE = ("cases = the call histories of C08 extended with singular steps (a colum
         "independent systems in other precisions; each history is executed, the caller-visible objects are destroyed with the documented "
         "routines (pxgstrf_finalize, Destroy_SuperNode_SCP, Destroy_CompCol_NCP, StatFree), and the whole history is repeated twice more; "
         "oracle = live-set of an interposed allocator (ld --wrap malloc/calloc/realloc/free, every library allocation recorded with its call "
-        "chain) is empty after every repetition, /proc/self/task and /proc/self/fd counts unchanged. non-trivial = history contains a "
+        "chain) is empty after every repetition, /proc/self/task and /proc/self/fd counts unchanged. plus expert-driver calls over every fact (incl. the FACTORED two-step history) / trans / NC,NR / nrhs (incl. 0) combination with the same leak oracle; non-trivial = history contains a "
         "non-success return or a refactorization; distinct = case text")
 ASSUMPTIONS = ["allocations made by the library while the harness is inside a library call are attributed to the library (flag set around calls)"]
 BUDGET = {
@@ -16,13 +17,28 @@ BUDGET = {
 }
 
 
+def _expert(c):
+    c["set"]["prop"] = ID; c["set"]["mode"] = "expert"; c["ops"] = []
+    return c
+
+
 def strategy(tier):
-    return hist_case(nmax=24 if tier == "quick" else 60, maxlen=7 if tier == "quick" else 16, allow_other=True, allow_singular=True, allow_tune=True, allow_query=True)
+    from props.common import expert_case
+    h = hist_case(nmax=24 if tier == "quick" else 60, maxlen=7 if tier == "quick" else 16, allow_other=True, allow_singular=True, allow_tune=True, allow_query=True)
+    # one-shot and two-step (FACTORED) expert-driver calls over all fact / trans / storage / nrhs (incl. 0) combinations
+    x = expert_case(nmax=20 if tier == "quick" else 50, transes=("N", "T")).map(_expert)
+    return st.one_of(h, h, h, x)
 
 
 def nontrivial(case, v):
     f = v.get("f", {})
+    if case["set"].get("mode") == "expert":
+        s = case["set"]; return s.get("fact") == "FACTORED" or s.get("stype") == "NR" or s.get("nrhs", 1) == 0
     return f.get("singular_steps", 0) > 0 or any(o.startswith("REFACT") for o in case["ops"])
 
 
-classify = hist_classes
+def classify(case, v):
+    if case["set"].get("mode") == "expert":
+        from props.common import expert_classes
+        return ["mode=expert"] + expert_classes(case, v)
+    return hist_classes(case, v)
